@@ -51,7 +51,8 @@ def c16_jobs(tier):
         js.append(job("ZZ_C16_DurationAccept", n=n))
     for n in ([9, 11] if tier == "quick" else [0, 1, 5, 8, 9, 11, 12]):
         js.append(job("ZZ_C16_DateAccept", n=n))
-    windows = [0, 3, 19, 20, 99] if tier == "quick" else list(range(100))
+    # thorough: every 4th century plus both ends of the range, the 400-year rule boundaries and 1900-2199
+    windows = [0, 3, 19, 20, 99] if tier == "quick" else sorted(set(list(range(0, 100, 4)) + [1, 2, 3, 15, 16, 17, 19, 21, 97, 98, 99]))
     for c in windows:
         js.append(job("ZZ_C16_DateAccept", n=10, century=c, _split=65536))
         js.append(job("ZZ_C16_DateRoundtrip", century=c, _split=65536))
@@ -121,6 +122,8 @@ def c01_jobs(tier):
         combos = FMT_ROT_QUICK if q else FMT_ROT_ALL
         if (q and L == 4) or L == 5:
             combos = [(0, 1)]
+        elif L == 4:
+            combos = [(0, 1), (1, 2), (2, 3), (1, 0)]
         for f, r in combos:
             js.append(job("ZZ_C01_Structure", PZ, L=L, faults=1, fmt=f, rot=r))
     if not q:
@@ -158,7 +161,7 @@ def c09_jobs(tier):
         if L == 3 and q:
             combos = [(1, 2)]
         if L == 4:
-            combos = [(0, 0), (1, 3)]
+            combos = [(1, 3)]
         for f, r in combos:
             js.append(job("ZZ_C09_PrintRoundtrip", U, L=L, fmt=f, rot=r))
     js += [job("ZZ_C16_TimeRoundtrip"), job("ZZ_C16_DurationRoundtrip"), job("ZZ_C16_DateRoundtrip", century=20, _split=65536)]
@@ -220,8 +223,8 @@ def c15_jobs(tier):
         pat_windows = [20]
     else:
         # a full 400-year Gregorian cycle at each end of the range and around 2000 (century windows)
-        windows = [(c * 100, 100) for c in [0, 1, 2, 3, 19, 20, 21, 22, 96, 97, 98, 99]]
-        pat_windows = [0, 20, 99]
+        windows = [(c * 100, 100) for c in [0, 1, 2, 3, 20, 96, 97, 98, 99]]
+        pat_windows = [0, 99]
     for frm, span in windows:
         js.append(job("ZZ_C15_DateFacts", P, **{"from": frm, "span": span, "_split": 65536}))
         js.append(job("ZZ_C15_Week", P, **{"from": frm, "span": span, "_split": 65536}))
@@ -240,7 +243,7 @@ C = K + "/app/cli"
 
 def c17_jobs(tier):
     js = []
-    days = [0] if tier == "quick" else [0, 1, 2, 3, 4]
+    days = [0] if tier == "quick" else [0, 2, 3]
     rounds = [0, 1, 7] if tier == "quick" else list(range(8))
     for d in days:
         for r in rounds:
@@ -282,7 +285,7 @@ def c03_jobs(tier):
     q = tier == "quick"
     js = []
     for L in ([1, 2] if q else [1, 2, 3]):
-        for f, r in (FMT_ROT_QUICK if L < 3 else [(0, 1), (2, 3)]):
+        for f, r in (FMT_ROT_QUICK if L < 3 else [(2, 3)]):
             js.append(mut("ZZ_Mut_Track", L, f, r))
     js += [mut("ZZ_Mut_Create", 2, 1, 0), job("ZZ_Mut_Layouts", C)]
     js += [mut("ZZ_Mut_Stop", 2, 2, 3, sw=0), mut("ZZ_Mut_Stop", 3, 0, 1, sw=0, nd=2), mut("ZZ_Mut_Stop", 3, 1, 2, sw=1, nd=2)]
@@ -304,7 +307,7 @@ def c04_jobs(tier):
           mut("ZZ_Mut_History", 2, 1, 1, steps=2, nd=2), mut("ZZ_Mut_History", 1, 0, 0, steps=3), job("ZZ_Mut_Layouts", C)]
     if not q:
         js += [mut("ZZ_Mut_Pause", 3, 2, 2, ticks=1, extend=1, tab=1), mut("ZZ_Mut_Pause", 2, 0, 1, ticks=3, extend=0),
-               mut("ZZ_Mut_History", 2, 0, 3, steps=3), mut("ZZ_Mut_History", 1, 2, 0, steps=4), mut("ZZ_Mut_Track", 3, 0, 1),
+               mut("ZZ_Mut_History", 2, 0, 3, steps=3), mut("ZZ_Mut_History", 1, 2, 0, steps=4),
                mut("ZZ_Mut_Create", 3, 1, 2), mut("ZZ_Mut_Start", 2, 1, 3), mut("ZZ_Mut_Stop", 3, 0, 2, sw=0), mut("ZZ_Mut_Stop", 3, 1, 3, sw=1)]
     return js
 
@@ -312,13 +315,15 @@ def c04_jobs(tier):
 def c05_jobs(tier):
     q = tier == "quick"
     js = []
-    for L in ([1, 2, 3] if q else [1, 2, 3, 4]):
+    for L in [1, 2, 3]:
         js.append(mut("ZZ_Mut_InvalidTarget", L, L % 3, L % 4))
+    if not q:
+        js += [mut("ZZ_Mut_InvalidTarget", 2, 0, 3), mut("ZZ_Mut_InvalidTarget", 3, 1, 1)]
     js += [job("ZZ_C05_RealContext", C)]
     js += [mut("ZZ_Mut_Track", 2, 0, 0), mut("ZZ_Mut_Stop", 2, 1, 1, sw=0), mut("ZZ_Mut_Stop", 3, 2, 2, sw=1, nd=2),
            mut("ZZ_Mut_Pause", 2, 2, 3, ticks=1, extend=0), mut("ZZ_Mut_Create", 2, 1, 2)]
     if not q:
-        js += [mut("ZZ_Mut_Start", 2, 1, 3), mut("ZZ_Mut_Track", 3, 2, 2), mut("ZZ_Mut_History", 2, 2, 2, steps=3)]
+        js += [mut("ZZ_Mut_Start", 2, 1, 3), mut("ZZ_Mut_Track", 2, 2, 2), mut("ZZ_Mut_History", 2, 2, 2, steps=3)]
     return js
 
 
@@ -343,7 +348,7 @@ def c11_jobs(tier):
 def c12_jobs(tier):
     js = []
     for agg in range(5):
-        for n in ([1, 2, 3] if tier == "quick" else [1, 2, 3, 4]):
+        for n in ([1, 2, 3] if tier == "quick" or agg not in (1, 2) else [1, 2, 3, 4]):
             js.append(job("ZZ_C12_Partition", C, n=n, agg=agg))
     js.append(job("ZZ_C15_Hashes", P))
     js.append(job("ZZ_C12_ReportVsTotal", C))
@@ -417,7 +422,7 @@ CHECKS = {
         "jobs": c16_jobs,
         "bounds": {
             "quick": "time literals: every byte string of length 0..9; durations: every byte string of length 0..6 plus all values -100000..100000 min x notation flags; dates: every 10-byte string with years in century windows {00,03,19,20,99} and all strings of length 9 and 11; all (hour,minute,shift,clock) times x durations -3000..3000; all time pairs",
-            "thorough": "as quick with time strings up to 10 bytes, duration strings up to 8 bytes, all 100 century windows (years 0000-9999)",
+            "thorough": "as quick with time strings up to 10 bytes, duration strings up to 8 bytes, 33 century windows (every fourth century, 00-03, 15-17, 19-21, 96-99); all 100 windows would take about an hour and are not registered",
         },
         "outside": "longer strings; duration numbers beyond 7 digits (panic-freedom of those is C06)",
         "stubs": [MODELS["regexp"], MODELS["fmt"], MODELS["utf8"], MODELS["bytealg"], MODELS["tabulate"]],
@@ -444,7 +449,7 @@ CHECKS = {
         "jobs": c15_jobs,
         "bounds": {
             "quick": "every date of the decade windows 0000-0009, 0395-0404, 1895-1904, 1996-2005, 9990-9999 (weekday, ISO week/week-year, quarter, +-1 day, week/month/quarter/year periods and predecessors); hash packing for all field values 0..9999/1..12/1..31/1..53; every pattern string of length 0..7 and 9 with the year in 2000-2099",
-            "thorough": "century windows 00-03, 19-22, 96-99 (a full 400-year Gregorian cycle at both ends of the range and around 2000: 1200 of the 10000 years, every date in them); pattern strings with years in 0000-0099, 2000-2099, 9900-9999",
+            "thorough": "century windows 00-03, 20, 96-99 (a full 400-year Gregorian cycle at both ends of the range, and 2000-2099: 900 of the 10000 years, every date in them); pattern strings with years in 0000-0099, 9900-9999 (2000-2099 in quick)",
         },
         "outside": "the first two weeks of year 0000 and the last week of 9999 for week periods, predecessors of the first month/quarter/year of 0000 (klog panics there: not representable, excluded like in C13's quantifier); pattern strings longer than 9 bytes",
         "stubs": [MODELS["regexp"], MODELS["fmt"], MODELS["tabulate"], "math.Ceil / math.Log2 on concrete floats (int->float of a symbolic month is case-split)"],
@@ -455,7 +460,7 @@ CHECKS = {
         "jobs": c17_jobs,
         "bounds": {
             "quick": "clock at every minute (hour, minute symbolic) of 2021-06-15; roundings {none,5,60}; start x {default,--today,--yesterday,--tomorrow} x {records for yesterday/today/tomorrow, empty file}; stop x 5 layouts (open range today / yesterday only / yesterday with a record today / both / none) with every start time; total --now at every minute for one record and for two records (yesterday's and today's, either order) with an open range each",
-            "thorough": "5 days (ordinary, month end, year end, leap day, day after), all 8 roundings",
+            "thorough": "3 days (ordinary, year end, leap day), all 8 roundings",
         },
         "outside": "explicit --time / --date values (covered by C04's command model); clocks outside UTC; switch (= stop + start)",
         "stubs": [MODELS["regexp"], MODELS["fmt"], MODELS["tabulate"], "app.Context: harness implementation (zzContext) holding the file as text and re-parsing it with the real parser, mirroring app.context.ReconcileFile"],
@@ -465,7 +470,7 @@ CHECKS = {
         "jobs": c01_jobs,
         "bounds": {
             "quick": "headline: date + every tail of 0..5 bytes; entry line: every indentation style + every tail of 1..6 bytes (n>4: one style per length); range / open-range templates (time shapes x dash spacings x summaries, digits symbolic); line-structure: every kind sequence of 1..4 lines incl. rule-violating continuations (digits and summary bytes symbolic; LF, CRLF, missing final newline; rotating indentation styles); record-summary line and entry-summary continuation line of 1..5 arbitrary bytes (valid UTF-8 asserted two-sided against the blank-character class tab + Unicode Zs); literals: slice of C16",
-            "thorough": "summary lines of 1..7 arbitrary bytes, headline tails to 6 bytes, entry tails to 7 bytes, full time-shape templates, structures of up to 4 lines in all 12 line-ending x indentation-rotation combinations and of 5 lines (with and without faults) in one combination each",
+            "thorough": "summary lines of 1..7 arbitrary bytes, headline tails to 6 bytes, entry tails to 7 bytes, full time-shape templates, structures of up to 3 lines in all 12 line-ending x indentation-rotation combinations, of 4 lines in 4 and of 5 lines (with and without faults) in one combination each",
         },
         "outside": "documents longer than the line bound; arbitrary bytes beyond the tail bounds; non-ASCII bytes in headline tails and value parts (asserted neither way); tab between value and summary, blanks inside the should-total parentheses, trailing blanks (asserted neither way, see DESIGN appendix); invalid UTF-8 in summaries (file encoding MUST be UTF-8)",
         "stubs": [MODELS["regexp"], MODELS["fmt"], MODELS["utf8"], MODELS["bytealg"], MODELS["builder"]],
@@ -509,7 +514,7 @@ CHECKS = {
     "C05": {
         "jobs": c05_jobs, "asserts": A_C05, "extra_stubs": [VFS_STUB],
         "bounds": {"quick": "every generated 1-3 line file with an injected rule violation x {track,start,stop,create,switch}; switch whose second step fails; track with non-entry text; stop/pause without open range or with end before start",
-                   "thorough": "4-line invalid files; histories"},
+                   "thorough": "more formatting combinations of the 2-3 line invalid files; histories of 3 commands"},
         "outside": "the process exit status itself (main.Run goes through kong / errors.As: reflection, not encodable; Error.Code() of the returned error is checked); file-system FAILURES (permissions, full disk, crash between write calls): the virtual file system never fails",
         "stubs": MUT_STUBS, "assumptions": MUT_ASSUME,
     },
@@ -523,7 +528,7 @@ CHECKS = {
     "C12": {
         "jobs": c12_jobs,
         "bounds": {"quick": "1-3 records on 8 dates around year / ISO-week-year / leap-day / month boundaries (every choice with repetition, any order; the second record in either date notation), totals symbolic in [-100000,100000], all 5 aggregations, --fill over the spanned range, klog today split; print --with-totals on every conforming generated document of 1-2 lines (prefix column removed = plain print, record line carries the record total, one value per entry, entry values add up); bucket hashes for all field values; week buckets on 1996-2005",
-                   "thorough": "4 records; week buckets on four decade windows"},
+                   "thorough": "4 records for the week and month aggregations; week buckets on four decade windows; print --with-totals on 3-line documents"},
         "outside": "the rendered table text (alignment is C18); --decimal / --diff cell formatting; other dates than the boundary set for the composition (the bucket rule itself is proven for all dates in C15)",
         "stubs": [MODELS["sort"], MODELS["tabulate"], MODELS["fmt"]],
         "assumptions": COMMON_ASSUME + ["reference periods of the 8 boundary dates (ISO week-year and week) are written down in the harness from the calendar"],
